@@ -30,7 +30,7 @@ def policies(r, driver, root_ph="@ROOT@"):
     """One random I/O policy: (name, rules)."""
     U = root_ph
     kind = r.choice(["cfr-short", "cfr-short", "cfr-short-kth", "cfr-refuse", "cfr-refuse-kth", "uspace-short", "uspace-short",
-                     "ficlone", "fiemap", "eintr", "mix", "mix", "short-then-refuse"])
+                     "ficlone", "fiemap", "eintr", "mix", "mix", "short-then-refuse", "cfr-transient"])
     lp = r.choice(LENPOL)
     rules = []
     if kind == "cfr-short":
@@ -56,6 +56,9 @@ def policies(r, driver, root_ph="@ROOT@"):
                       "errno": r.choice([EOPNOTSUPP, EINVAL, EXDEV])})
     elif kind == "fiemap":
         rules.append({"id": "s", "sys": "ioctl", "iocmd": core.FIEMAP, "under": U, "action": "fault", "errno": EOPNOTSUPP})
+    elif kind == "cfr-transient":
+        # one in-kernel copy is interrupted or asked to try again: not a count, not a refusal
+        rules.append({"id": "s", "sys": "copy_file_range", "under": U, "action": "fault", "errno": r.choice([EINTR, 11]), "nth": r.randint(1, 5)})
     elif kind == "eintr":
         rules.append({"id": "r", "sys": "copy_file_range", "under": U, "action": "fault", "errno": ENOSYS})
         rules.append({"id": "s", "sys": "read" if driver == "parfile" else "pread64", "under": U, "action": "fault", "errno": EINTR, "nth": r.randint(1, 3)})
